@@ -514,6 +514,24 @@ func (fc *FuncCtx) applyContract(st *State, call *ast.CallExpr, fn *types.Func, 
 			fc.pendingAlias = append(fc.pendingAlias, pendingAlias{call: call, result: al.Result, base: a.expr, idx: idx})
 		}
 	}
+	// `opt consumes <param>...` on the callee: what these arguments point to is handed over
+	if cons := c.Opts["consumes"]; cons != "" {
+		for _, want := range strings.Fields(cons) {
+			for _, a := range args {
+				if a.name == want && a.expr != nil {
+					fc.ownConsume(st, a.expr, call)
+				}
+			}
+		}
+	}
+	// `opt lasterr <callee>`: ghost <callee>_err is the error returned by the latest call of it
+	if fc.contract != nil && len(results) > 0 && types.TypeString(results[len(results)-1].T, nil) == "error" {
+		for _, want := range strings.Fields(fc.contract.Opts["lasterr"]) {
+			if want == fn.Name() {
+				st.ghost[want+"_err"] = results[len(results)-1]
+			}
+		}
+	}
 	// ghost outputs become visible in the caller under "<callee>.<name>" of the latest call
 	for _, g := range c.Ghost {
 		st.ghost[fn.Name()+"_"+g.Name] = postEnv.vars[g.Name]
